@@ -100,7 +100,11 @@ def login_histories(run, rng, thorough):
             io.recv_frame()
             obs = scripts.encryption_exchange(
                 io, codec, server_id='-', token=bytes(
-                    rng.getrandbits(8) for _ in range(4)))
+                    rng.getrandbits(8) for _ in range(4)),
+                plugin_request_first=(40 + io.index) if pv >= 385 and
+                hi % 2 == 1 else None)
+            if obs.get('plugin_answers'):
+                run.count('e2e.plugin_request_with_encryption_request')
             secrets.append(obs['secret'])
             if step == 'drop':
                 return
@@ -145,6 +149,19 @@ def login_histories(run, rng, thorough):
             conn = pc.make_connection(server.port, rec, early_listener=False,
                                       allowed_versions={pv})
             from minecraft.networking.packets import clientbound as _cb
+            if hi % 3 == 0:
+                # an ordinary (late) outgoing listener that raises IgnorePacket
+                # for the encryption response: the packet is on the wire by
+                # then, the session must carry on encrypted
+                from minecraft.exceptions import IgnorePacket as _Ign
+                from minecraft.networking.packets import serverbound as _sbl
+
+                def late_ignore(packet):
+                    raise _Ign
+                conn.register_packet_listener(
+                    late_ignore, _sbl.login.EncryptionResponsePacket,
+                    outgoing=True)
+                run.count('e2e.late_ignore_on_encryption_response')
             if slow_listener:
                 def dawdle(packet):
                     import time
